@@ -236,7 +236,14 @@ def validate(run, traces, verts, labels, name="FSATrace", verbose=False):
     env = {"TRACE_FILE": tf}
     if verbose:
         env["TRACE_VERBOSE"] = "1"
-    r = run.tlc("fsa/FSATrace.tla", c, name=name, workers=1, env_extra=env, emit_prefix="\x00none")
+    try:
+        r = run.tlc("fsa/FSATrace.tla", c, name=name, workers=1, env_extra=env, emit_prefix="\x00none")
+    except core.MachineryFailure as e:
+        # seen once under extreme machine load: a JVM StackOverflowError on a trace file that needs < 512 kB of the
+        # 16 MB stack and validates cleanly when run again.  A machinery failure is never a verdict; one more try.
+        if "StackOverflowError" not in str(e):
+            raise
+        r = run.tlc("fsa/FSATrace.tla", c, name=name + "_retry", workers=1, env_extra=env, emit_prefix="\x00none")
     acc, at = set(), {}
     for line in r.stdout.splitlines():
         m = _ACC.match(line)
